@@ -68,6 +68,42 @@ def h_insert_remove(cx, sp, d, r, r2, via='operations'):
     cx.eq('point', shapes.evaluate(obj, prm), shapes.evaluate(ref, prm))
 
 
+def h_insert_remove_multi(cx, sp, dirs, via='operations'):
+    """insert one knot in each of several directions, then remove them all in ONE call"""
+    ops = geo.M('operations')
+    obj, info = shapes.build(cx, sp)
+    ref = shapes.clone(obj)
+    orig = shapes.snapshot(obj)
+    pd = obj.pdimension
+    xs = [None] * pd
+    nums = [0] * pd
+    for d in dirs:
+        kv = orig['kvs'][d]
+        p = orig['degs'][d]
+        x = cx.real('x' + shapes.DIRS[d], param=True)
+        cx.assume(x > kv[p], check=False)
+        cx.assume(x < kv[len(kv) - p - 1], check=False)
+        cx.snap(x, kv)
+        if shapes.multiplicity(cx, x, kv) >= p:
+            cx.assume(False)
+        xs[d], nums[d] = x, 1
+    ops.insert_knot(obj, list(xs), list(nums))
+    if via == 'operations':
+        ops.remove_knot(obj, list(xs), list(nums))
+    else:
+        kw = {}
+        for d in dirs:
+            kw[shapes.DIRS[d]] = xs[d]
+            kw['num_' + shapes.DIRS[d]] = 1
+        obj.remove_knot(**kw)
+    after = shapes.snapshot(obj)
+    cx.eq('kvs_restored', after['kvs'], orig['kvs'])
+    cx.eq('sizes_restored', after['sizes'], orig['sizes'])
+    cx.eq('ctrlpts_restored', after['net'], orig['net'])
+    prm = shapes.sym_params(cx, ref)
+    cx.eq('point', shapes.evaluate(obj, prm), shapes.evaluate(ref, prm))
+
+
 def h_refine_remove(cx, sp, d, which, num, via='operations'):
     """refine direction d with density 1, then remove the `which`-th new knot num times"""
     ops = geo.M('operations')
@@ -138,6 +174,23 @@ def instances(tier):
                 if degs[d] >= 2:
                     add(sp, d, 2, 2, timeout=1800)
     add(spec('volume', (1, 1, 2), ((1,), (), ()), rational=False), 2, 1, 1, via='method', timeout=1800)
+    for degs, ms in [((1, 2), ((1,), ())), ((2, 1), ((), (1,)))] + ([] if quick else [((2, 2), ((1,), (1,)))]):
+        for rational in (False, True):
+            sp = spec('surface', degs, ms, rational=rational)
+            for via in ('operations', 'method'):
+                out.append(inst('%s ins-rem multi uv %s' % (spec_name(sp), via), h_insert_remove_multi, timeout=1800, sp=sp, dirs=(0, 1), via=via))
+    sp = spec('volume', (1, 1, 2), ((1,), (), ()), rational=False)
+    out.append(inst('%s ins-rem multi uvw' % spec_name(sp), h_insert_remove_multi, timeout=1800, sp=sp, dirs=(0, 1, 2)))
+    out.append(inst('%s ins-rem multi vw method' % spec_name(sp), h_insert_remove_multi, timeout=1800, sp=sp, dirs=(1, 2), via='method'))
+    if not quick:
+        for rational in (False, True):
+            sp = spec('volume', (3, 1, 1), ((), (), (1,)), rational=rational)
+            for r in (1, 2, 3):
+                add(sp, 0, r, r, timeout=2400)
+            sp = spec('volume', (1, 3, 2), ((), (1,), ()), rational=rational)
+            add(sp, 1, 2, 2, timeout=2400)
+            add(sp, 1, 3, 3, timeout=2400)
+            add(sp, 2, 2, 2, timeout=2400)
     # refinement then removal
     for p in ((1, 2, 3) if quick else (1, 2, 3, 4)):
         for m in [(), (1,)]:
